@@ -44,3 +44,39 @@ def main(argv) -> int:
         finally:
             shutil.rmtree(tmp, ignore_errors=True)
     return 0 if ok else 1
+
+
+def harmless(argv) -> int:
+    """./check selftest-harmless [names...]: applies each behaviour-preserving refactoring under /verif/harmless/<name>.diff to a scratch copy
+    of /repo and runs the level-P part of every check on it (VERIF_P_ONLY=1): every check must exit 0 and print no VIOLATION line.
+    (The bounded level-B part tests behaviour, which these patches do not change; run a check without VERIF_P_ONLY to include it.)"""
+    import concurrent.futures as cf
+    hd = common.VERIF / "harmless"
+    names = argv or sorted(p.stem for p in hd.glob("*.diff"))
+    checks = [f"C{i:02d}" for i in range(1, 21)]
+
+    def one(nm):
+        tmp = Path(tempfile.mkdtemp(prefix="verif_harmless_"))
+        out = []
+        try:
+            shutil.copytree("/repo/photon_weave", tmp / "photon_weave")
+            r = subprocess.run(["patch", "-p1", "-s", "-d", str(tmp), "-i", str(hd / f"{nm}.diff")], capture_output=True, text=True)
+            if r.returncode != 0:
+                return [(nm, "-", "patch does not apply", False)]
+            for pid in checks:
+                env = dict(os.environ, VERIF_REPO=str(tmp), VERIF_SCRATCH_OUT=str(tmp / "out"), VERIF_P_ONLY="1")
+                p = subprocess.run([str(common.VERIF / "check"), pid, "--tier", "quick"], capture_output=True, text=True, env=env)
+                good = p.returncode == 0 and "VIOLATION" not in p.stdout
+                nc = p.stdout.count("NOT-COVERED")
+                if not good or nc:
+                    out.append((nm, pid, f"exit {p.returncode}, {nc} NOT-COVERED line(s)", good))
+        finally:
+            shutil.rmtree(tmp, ignore_errors=True)
+        return out or [(nm, "*", "all twenty checks exit 0, fully covered at level P", True)]
+    ok = True
+    with cf.ThreadPoolExecutor(6) as ex:
+        for res in ex.map(one, names):
+            for nm, pid, msg, good in res:
+                print(f"[selftest-harmless] {nm} {pid}: {msg} [{'ok' if good else 'FALSE ALARM'}]")
+                ok = ok and good
+    return 0 if ok else 1
